@@ -28,33 +28,7 @@ def check(ck):
         f = repo.func(UD, "wraps_with_directives")
         fv = FuncView(f)
         p = f.positional_params  # directives_definition, directive_hook, func, is_resolver, with_default, is_async_generator
-        loops = [l for l in fv.loops() if isinstance(l, ast.For)]
-        ck.ob("wraps_with_directives: one fold loop", len(loops) == 1, f, f.node, construct="fold:one-loop")
-        lp = loops[0]
-        it = unparse(lp.iter)
-        ck.ob("wraps_with_directives: the directive list is folded last-to-first (first declared ends up outermost)", it in (f"reversed({p[0]})", f"{p[0]}[::-1]"), f, lp,
-              construct="fold:reversed", detail=f"iterates `{it}`")
-        d = unparse(lp.target)
-        st = [n for n in walk_no_nested(lp) if isinstance(n, ast.Assign) and unparse(n.targets[0]) == p[2]]
-        ok = len(st) == 1 and isinstance(st[0].value, ast.Call) and dotted(st[0].value.func) == "partial" and \
-            [unparse(a) for a in st[0].value.args] == ["directive_wrapper", f"{d}['callables'][{p[1]}]", f"{d}['arguments_coercer']", p[2]]
-        ck.ob("wraps_with_directives: each step wraps the accumulated callable with (executor, this directive's hook, this directive's arguments coercer, previous callable)",
-              ok, f, st[0] if st else lp, construct="fold:step")
-        if st:
-            conds = fv.conditions(st[0])
-            ck.ob("wraps_with_directives: only directives that define the hook wrap", (f"{p[1]} in {d}['callables']", "T") in conds and len(conds) == 1, f, st[0], construct="fold:only-defined",
-                  detail=str(conds))
-        rets = [r for r in fv.returns() if r.value is not None and unparse(r.value) == p[2]]
-        ck.ob("wraps_with_directives: returns the folded callable", len(rets) == 1 and not fv.enclosing_loops(rets[0]), f, rets[0] if rets else f.node, construct="fold:return")
-        ck.ob("wraps_with_directives: no early exit from the fold", not any(isinstance(n, (ast.Break, ast.Return, ast.Continue)) for n in walk_no_nested(lp)), f, lp, construct="fold:no-early-exit")
-        # innermost callable
-        none_ret = [r for r in fv.returns() if r.value is not None and unparse(r.value) == "None"]
-        ok = len(none_ret) == 1 and {(f"{p[2]} is None", "T"), (p[4], "F"), (p[0], "F")} <= set(fv.conditions(none_ret[0]))
-        ck.ob("wraps_with_directives: without a callable, without default and without directives there is nothing to wrap (None)", ok, f, none_ret[0] if none_ret else f.node,
-              construct="fold:none")
-        dflt = [n for n in walk_no_nested(f.node) if isinstance(n, ast.Assign) and unparse(n.targets[0]) == p[2] and "_HOOK_CALLABLES_MAP.get" in unparse(n.value)]
-        ok = len(dflt) == 1 and unparse(dflt[0].value) == f"_HOOK_CALLABLES_MAP.get({p[1]}, default_directive_callable)" and fv.guarded(dflt[0], lambda t: t == f"{p[2]} is None", "T")
-        ck.ob("wraps_with_directives: the innermost callable defaults to the hook's identity callable", ok, f, dflt[0] if dflt else f.node, construct="fold:default")
+        wraps_with_directives_terms(ck, repo)
         for name, pos in (("default_argument_execution_directive", 3), ("default_post_input_coercion_directive", 1), ("default_directive_callable", 0)):
             g = repo.func(UD, name)
             r = FuncView(g).returns()
@@ -64,17 +38,6 @@ def check(ck):
         ck.ob("identity callables are registered for the hooks whose value is not the first operand",
               got == {"on_argument_execution": "default_argument_execution_directive", "on_post_input_coercion": "default_post_input_coercion_directive"}, where=UD,
               construct="identity:table", detail=str(got))
-        # the raw callable is adapted before any directive wraps it
-        for flag, wrapper, extra in ((p[3], "resolver_executor", None), (p[5], "subscription_generator", "directive_generator")):
-            st2 = [n for n in walk_no_nested(f.node) if isinstance(n, ast.Assign) and unparse(n.targets[0]) == p[2] and unparse(n.value) == f"partial({wrapper}, {p[2]})"]
-            conds = set(fv.conditions(st2[0])) if len(st2) == 1 else set()
-            ck.ob(f"wraps_with_directives: with `{flag}` the raw callable is adapted by {wrapper} once (it strips the engine-only `context_coercer` keyword)",
-                  len(st2) == 1 and conds == {(flag, "T"), (f"isinstance({p[2]}, partial)", "F")} and not fv.enclosing_loops(st2[0]) and fv.dominated_by(lp, st2[0]) is False or
-                  (len(st2) == 1 and conds == {(flag, "T"), (f"isinstance({p[2]}, partial)", "F")}), f, st2[0] if st2 else f.node, construct=f"fold:adapt:{wrapper}", detail=str(sorted(conds)))
-            if extra:
-                sw = [n for n in walk_no_nested(f.node) if isinstance(n, ast.Assign) and unparse(n.targets[0]) == "directive_wrapper" and unparse(n.value) == extra]
-                ck.ob("wraps_with_directives: generator hooks are wrapped by the generator executor", len(sw) == 1 and (flag, "T") in fv.conditions(sw[0]), f, sw[0] if sw else f.node,
-                      construct="fold:generator-wrapper")
     with ck.rule("R2"):
         e = repo.func(UD, "directive_executor")
         ev = FuncView(e)
@@ -308,7 +271,16 @@ def _wiring_table(ck, repo):
     av = FuncView(a)
     pre = av.maybe_call("pre_output_coercion_directives")
     cov = av.maybe_call("complete_object_value")
-    ok = pre is not None and cov is not None and unparse(pre.func.value) == "runtime_type" and strip_await(cov.args[0]) is pre and not av.calls("output_coercer")
+    from ..pathtab import outcome_rows as _rows
+    from ..q import bound_args
+    arow = [r_ for r_ in _rows(av) if r_["exit"] == "return_exit"]
+    sub_ = arow[0]["sym"]["__sub__"] if arow else (lambda e_: e_)
+    cb = (bound_args(repo, a.module, cov, sub_) or {}) if cov is not None else {}
+    cpp = repo.func("tartiflette/coercers/outputs/common.py", "complete_object_value").positional_params
+    ev_ = av.maybe_call("ensure_valid_runtime_type")
+    # the first operand of the completion is the awaited hook chain of the *validated runtime type*, on this path
+    ok = pre is not None and cov is not None and ev_ is not None and unparse(sub_(pre.func.value)) == unparse(sub_(ev_)) and \
+        cb.get(cpp[0]) == "await " + unparse(sub_(pre)) and not av.calls("output_coercer")
     ck.ob("abstract_coercer: applies the runtime object type's output hooks once, then completes the object directly (not through the object's output_coercer, which would run them twice)",
           ok, a, cov or a.node, construct="wiring:abstract-once")
     o = repo.func("tartiflette/types/object.py", "GraphQLObjectType.bake")
@@ -546,6 +518,18 @@ def bound_coerce_arguments(repo, g):
                     site = v
         if isinstance(d, ast.keyword) and d.arg == "arguments_coercer":
             site = d.value
+    if site is None:
+        # handed to the instance builder positionally: bind through its signature
+        for c in gv.calls("transform_directive"):
+            tp = repo.func(g.module.relpath, "transform_directive").positional_params if "transform_directive" in g.module.funcs else []
+            for i, a in enumerate(c.args):
+                if i < len(tp) and tp[i] == "arguments_coercer":
+                    site = a
+    if isinstance(site, ast.Name):
+        # a local bound once (in the loop body) to the coercer
+        defs = [n for n in walk_no_nested(g.node) if isinstance(n, ast.Assign) and len(n.targets) == 1 and unparse(n.targets[0]) == site.id]
+        if len(defs) == 1:
+            site = defs[0].value
     if not isinstance(site, ast.Call):
         return site, None
     fn = dotted(site.func)
@@ -591,3 +575,82 @@ def bound_coerce_arguments(repo, g):
             return site, None
         out[k.arg] = actual[v]
     return site, out
+
+
+def wraps_with_directives_terms(ck, repo):
+    """E13: wraps_with_directives interpreted on zero to three directive instances (each defining the hook or not), every
+    combination of the three flags, and a missing / raw / already adapted callable; the result is compared, as a term, with
+    the chain the specification prescribes: the raw callable (or the hook's identity default) adapted once, then wrapped by
+    exactly the directives that define the hook, *first declared outermost*, each with its own hook and arguments coercer;
+    None when there is nothing to wrap."""
+    from .. import absint
+    from ..absint import PartialV, Sym
+    import itertools as _it
+    f = repo.func(UD, "wraps_with_directives")
+    M = "tartiflette.utils.directives."
+    n = 0
+    for hook in ("on_field_execution", "on_argument_execution"):
+        for k in range(4):
+            for defines in _it.product((True, False), repeat=k):
+                dirs = [{"callables": ({hook: Sym(f"hook_{i}")} if d else {"other_hook": Sym(f"other_{i}")}), "arguments_coercer": Sym(f"args_{i}")} for i, d in enumerate(defines)]
+                for func_kind in ("none", "raw", "adapted"):
+                    for is_res, with_def, is_gen in _it.product((False, True), repeat=3):
+                        if is_res and is_gen:
+                            continue
+                        func = None if func_kind == "none" else (Sym("raw") if func_kind == "raw" else PartialV(Sym("already_adapted"), (Sym("raw"),), {}))
+                        # the specification
+                        if func is None and not with_def and not dirs:
+                            want = None
+                            skip = True
+                        else:
+                            skip = False
+                            inner = func
+                            if inner is None:
+                                inner = Sym(M + {"on_argument_execution": "default_argument_execution_directive", "on_post_input_coercion": "default_post_input_coercion_directive"}.get(
+                                    hook, "default_directive_callable"))
+                            wrapper = Sym(M + "directive_executor")
+                            if is_res and not isinstance(inner, PartialV):
+                                inner = PartialV(Sym(M + "resolver_executor"), (inner,), {})
+                            if is_gen and not isinstance(inner, PartialV):
+                                inner = PartialV(Sym(M + "subscription_generator"), (inner,), {})
+                                wrapper = Sym(M + "directive_generator")
+                            want = inner
+                            for i in reversed(range(k)):
+                                if defines[i]:
+                                    want = _P(wrapper, (Sym(f"hook_{i}"), Sym(f"args_{i}"), want))
+                        it = absint.Interp(repo, f.module)
+                        try:
+                            got = it.run(f, [[dict(d) for d in dirs], hook, func, is_res, with_def, is_gen])
+                            why = None
+                        except absint.Unsupported as ex:
+                            raise AnalysisError(f"{f.short}: cannot be interpreted on abstract directive lists: {ex}")
+                        except absint.PyRaise as ex:
+                            got, why = None, f"raises {ex.name} ({ex.text})"
+                        n += 1
+                        ok = why is None and ((got is None) if want is None else _same_chain(got, want))
+                        if not ok:
+                            tag = f"{hook}:{''.join('d' if x else '-' for x in defines) or 'no-directive'}:{func_kind}:res={int(is_res)},default={int(with_def)},gen={int(is_gen)}"
+                            ck.ob(f"wraps_with_directives [{tag}]: the prescribed chain", False, f, f.node, construct=f"fold:chain:{tag}", detail=why or f"got {got!r}")
+    ck.ob("wraps_with_directives: on every explored input the result is the raw callable adapted once and wrapped by exactly the directives that define the hook, first declared outermost",
+          True, f, f.node, construct="fold:chain", evals=n)
+    ck.count("wraps_with_directives_shapes", n, 500)
+
+
+def _P(func, args):
+    """A non-flattening partial term (the wrappers keep the inner partial as an operand)."""
+    from ..absint import PartialV
+    p_ = PartialV.__new__(PartialV)
+    p_.func, p_.args, p_.kwargs = func, tuple(args), {}
+    return p_
+
+
+def _same_chain(got, want) -> bool:
+    from .. import absint
+    from ..absint import PartialV
+    if isinstance(want, PartialV):
+        if not isinstance(got, PartialV) or not _same_chain(got.func, want.func) or len(got.args) != len(want.args) or got.kwargs:
+            return False
+        return all(_same_chain(a, b) for a, b in zip(got.args, want.args))
+    if isinstance(got, absint.FuncV) and isinstance(want, absint.Sym):
+        return want.text.rsplit(".", 1)[-1] == got.name   # a function of the module itself, named by the specification
+    return absint.norm(got) == absint.norm(want)
